@@ -30,7 +30,7 @@ ASSUMPTIONS = ["programs are straight-line (no loops), so the expected log is co
 CASES = {"quick": 250, "thorough": 6000}
 NSHARDS = 16
 
-CONSTRUCTS = ["new", "old", "none", "dataclass", "method", "classmethod", "staticmethod", "property", "with", "recursion", "generator", "coroutine", "nonbinding"]
+CONSTRUCTS = ["new", "old", "none", "disabled", "dataclass", "method", "classmethod", "staticmethod", "property", "with", "recursion", "generator", "coroutine", "nonbinding"]
 EXITS = ["return", "Exception", "KeyboardInterrupt", "GeneratorExit", "SystemExit"]
 RAISE = {"Exception": "raise ValueError('x')", "KeyboardInterrupt": "raise KI()", "GeneratorExit": "raise GeneratorExit()", "SystemExit": "raise SE(3)"}
 
@@ -80,6 +80,7 @@ class Gen:
         self.pairs = set()
         self.budget = 40
         self.counts = {}
+        self.disabled = 0  # >0 while the program is inside a config.update('jaxtyping_disable', True) region
 
     def new_id(self):
         self.nid += 1
@@ -198,7 +199,15 @@ class Gen:
         tc = self.tc
         before = self.tr()
 
+        if self.disabled and c == "recursion":
+            c = "new"
+        NEW_STYLE = ("new", "dataclass", "method", "classmethod", "staticmethod", "property")
+
         def framed(bind_ind, bind_p, n):
+            if self.disabled and c in NEW_STYLE:
+                # checking is off: the wrapper calls straight through, no context, no binding
+                caller_has_n = bool(self.stack) and self.stack[-1]["n"] is not None
+                return self.finish_body(bind_ind, depth + 1, caller_has_n, ex)
             fr = {"binds": {}, "n": n}
             if bind_p:
                 fr["binds"][f"p{i}"] = size
@@ -225,6 +234,22 @@ class Gen:
             self.emit(ind, f"def f_{i}(x: {ann}, n: int):")
             prop = framed(ind + 1, c != "none", nval)
             return self.call_site(ind, i, f"f_{i}(A({size}), {nval})", prop, depth)
+        if c == "disabled":
+            # a decorated call made while checking is switched off behaves like the plain
+            # function: no context of its own, the body sees the caller's bindings
+            self.emit(ind, f"@jaxtyped(typechecker={tc})")
+            self.emit(ind, f"def f_{i}(x: {ann}, n: int):")
+            caller_has_n = bool(self.stack) and self.stack[-1]["n"] is not None
+            self.disabled += 1
+            prop = self.finish_body(ind + 1, depth + 1, caller_has_n, ex)
+            self.disabled -= 1
+            was = "True" if self.disabled else "False"
+            self.emit(ind, 'jaxtyping.config.update("jaxtyping_disable", True)')
+            self.emit(ind, "try:")
+            r = self.call_site(ind + 1, i, f"f_{i}(A({size}), {nval})", prop, depth)
+            self.emit(ind, "finally:")
+            self.emit(ind + 1, f'jaxtyping.config.update("jaxtyping_disable", {was})')
+            return r
         if c == "dataclass":
             self.emit(ind, f"@jaxtyped(typechecker={tc})")
             self.emit(ind, "@dataclasses.dataclass")
